@@ -28,6 +28,22 @@ type c01both struct{ s string } // HTMLer and Stringer: HTML() decides
 func (x c01both) String() string      { return "str:" + x.s }
 func (x c01both) HTML() template.HTML { return template.HTML(x.s) }
 
+// values whose POINTER type has the printing method, held in struct fields
+type c01ph struct{ s string }
+
+func (x *c01ph) HTML() template.HTML { return template.HTML(x.s) }
+
+type c01ps struct{ s string }
+
+func (x *c01ps) String() string { return x.s }
+
+type c01hold struct {
+	H *c01ph
+	S *c01ps
+	N *c01ph
+	V c01both
+}
+
 type route struct {
 	pre  string // statements before the output position
 	expr string // expression in output position (uses X for the inner expression)
@@ -202,6 +218,7 @@ func init() {
 		for _, p := range payloads {
 			pg := c01page{Body: template.HTML(p), Title: p, Role: c01role(p)}
 			extra := map[string]interface{}{"pg": pg, "ppg": &pg, "pgs": []c01page{pg}, "pgm": map[string]c01page{"k": pg}, "pgi": []interface{}{pg, &pg},
+				"hold": c01hold{H: &c01ph{p}, S: &c01ps{p}, V: c01both{p}}, "phold": &c01hold{H: &c01ph{p}, S: &c01ps{p}}, "holds": []c01hold{{H: &c01ph{p}}}, "pth": &c01ph{p},
 				"sr": c01strer{p}, "psr": &c01strer{p}, "srs": []interface{}{c01strer{p}}, "both": c01both{p}, "ps": p}
 			esc := template.HTMLEscapeString(p)
 			for _, t := range []struct{ tmpl, want string }{
@@ -211,6 +228,9 @@ func init() {
 				{"[[<%= pgs[0].Role %>]]", "?" + esc},
 				// a value that prints itself (fmt.Stringer) is text; one that is also an HTMLer is trusted HTML
 				{"[[<%= sr %>]]", esc}, {"[[<%= psr %>]]", esc}, {"[[<%= for (x) in srs { %><%= x %><% } %>]]", esc}, {"<% let q = sr %>[[<%= q %>]]", esc},
+				// trusted HTML (and a Stringer) reached through a pointer-typed struct field: the pointer has the method
+				{"[[<%= hold.H %>]]", p}, {"[[<%= phold.H %>]]", p}, {"[[<%= hold.S %>]]", esc}, {"[[<%= phold.S %>]]", esc}, {"[[<%= hold.N %>]]", ""}, {"[[<%= hold.V %>]]", p},
+				{"[[<%= holds[0].H %>]]", p}, {"[[<%= for (x) in holds { %><%= x.H %><% } %>]]", p}, {"<% let q = hold.H %>[[<%= q %>]]", p}, {"[[<%= pth %>]]", p},
 				{"[[<%= both %>]]", p}, {"<% let q = both %>[[<%= q %>]]", p},
 				// debug / inspect print data: only the pre tags are markup
 				{"[[<%= debug(ps) %>]]", "<pre>" + esc + "</pre>"}, {"[[<%= debug(sr) %>]]", "<pre>" + template.HTMLEscapeString(fmt.Sprintf("%+v", c01strer{p})) + "</pre>"},
@@ -276,6 +296,26 @@ func init() {
 				o := runRenderExtra(c, extra)
 				e.rep.Evaluations++
 				e.Count("string-block-helper")
+				if o.Class != "OK" || o.Out != "[["+t[1]+"]]" {
+					e.Violate("c01-escape", fmt.Sprintf("%s with payload %q rendered %q (%s %s), want %q", t[0], p, o.Out, o.Class, o.Msg, "[["+t[1]+"]]"), map[string]interface{}{"case": c, "payload": p, "observed": o})
+				}
+			}
+		}
+		// a variable holds whatever was assigned to it last: a plain string assigned to a variable that
+		// held trusted HTML is escaped, trusted HTML assigned to one that held a string is verbatim
+		for _, p := range payloads {
+			esc := template.HTMLEscapeString(p)
+			for _, t := range [][2]string{
+				{`<% let t = raw("<b>") %><% t = p %>[[<%= t %>]]`, esc}, {`<% let t = "none" %><% t = raw(p) %>[[<%= t %>]]`, p},
+				{`<% let t = p %><% t = hp %>[[<%= t %>]]`, p}, {`<% let t = hp %><% t = p %>[[<%= t %>]]`, esc}, {`<% let t = hp %><% t = "" + p %>[[<%= t %>]]`, esc},
+				{`<% banner = p %>[[<%= banner %>]]`, esc}, {`<% title = hp %>[[<%= title %>]]`, p}, {`[[<%= for (n) in ss { %><% banner = n %><%= banner %><% } %>]]`, esc},
+				{`<% let t = hp %><% let t = p %>[[<%= t %>]]`, esc}, {`<% let t = hp %><% let g = fn(v) { t = v; return t } %>[[<%= g(p) %>]]`, esc},
+				{`<% let t = mkhtml("x") %><% if (true) { t = p } %>[[<%= t %>]]`, esc}, {`<% let t = p %><% if (true) { t = mkhtml(p) } %>[[<%= t %>]]`, p},
+				{`<% let a = [hp] %><% a[0] = p %>[[<%= a[0] %>]]`, esc}, {`<% let h = {"k": hp} %><% h["k"] = p %>[[<%= h["k"] %>]]`, esc},
+				{`<% let a = [p] %><% a[0] = hp %>[[<%= a[0] %>]]`, p},
+			} {
+				c := RCase{Tmpl: t[0], Binds: []Bind{{"p", vStr(p)}, {"hp", vHTML(p)}, {"ss", vSlice("string", vStr(p))}, {"banner", vHTML("<i>welcome</i>")}, {"title", vStr("plain")}, {"mkhtml", vGo(102)}}}
+				o := e.addRenderCase("reassign", c)
 				if o.Class != "OK" || o.Out != "[["+t[1]+"]]" {
 					e.Violate("c01-escape", fmt.Sprintf("%s with payload %q rendered %q (%s %s), want %q", t[0], p, o.Out, o.Class, o.Msg, "[["+t[1]+"]]"), map[string]interface{}{"case": c, "payload": p, "observed": o})
 				}
